@@ -11,6 +11,7 @@ import LolHtml.Thm.FullIds
 import LolHtml.Lemmas.LexOnlyE
 import LolHtml.Lemmas.StickySync
 import LolHtml.Lemmas.FullSites
+import LolHtml.Thm.FullPay
 
 namespace LolHtml.Thm.Full
 open LolHtml LolHtml.Model LolHtml.Model.Full LolHtml.Model.Handlers LolHtml.EditModel LolHtml.Lemmas.Full
@@ -162,53 +163,59 @@ theorem fullCtl_stickySync (cfg : Cfg) : LexE.StickySync (fullCtl cfg) (fun g =>
 
 /-! ## the dispatcher over the real controller, side by side with the cleaned one -/
 
-/-- the three residual glue sites -/
-def Glue (e : Err) : Prop := e = .panic rAttr ∨ e = .panic rPayload ∨ e = .panic rMatcher
+/-- the two residual glue sites (slices of the start-tag token's attributes) -/
+def Glue (e : Err) : Prop := e = .panic rAttr ∨ e = .panic rMatcher
 
 theorem Glue.gp {e : Err} (h : Glue e) : Chunk.R.GP e := by
-  rcases h with h | h | h <;> subst h <;> exact Or.inl ⟨_, rfl, by decide⟩
+  rcases h with h | h <;> subst h <;> exact Or.inl ⟨_, rfl, by decide⟩
 
-/-- an `Allowed` error returned by a callback of the real controller, of panic class: a glue site -/
-theorem glue_of_allowed {cfg : Cfg} {e : Err} (hG : Chunk.R.GP e) (hc : Chunk.R.CbErr (fullCtl cfg) (Chunk.R.DO cfg) e)
-    (hA : Allowed e) : Glue e := by
-  rcases hA with h | h | h | h | h
+/-- an error of a lexer-mode dispatcher operation from a `J2` state that was returned by a callback of the
+real controller and is of panic class: a glue site -/
+theorem glue_of_cg {cfg : Cfg} {e : Err} (hG : Chunk.R.GP e) (hc : Chunk.R.CbErr (fullCtl cfg) (Chunk.R.DO cfg) e)
+    (hA : CG (fun e => e = .panic rAttr ∨ e = .panic rMatcher) (fun _ => False) e) : Glue e := by
+  rcases hA with h | h | h | h
   · subst h
     rcases hG with ⟨m, hm, _⟩ | ⟨s, hs⟩
     · cases hm
     · cases hs
-  · exact Or.inl h
-  · exact Or.inr (Or.inl h)
-  · exact Or.inr (Or.inr h)
+  · exact h
+  · exact h.elim
   · exact absurd h (Chunk.R.cbErr_not_own cfg e hc)
 
-theorem kd_DO {cfg : Cfg} {d : Disp (FullSt cfg)} (h : KD cfg d) : Chunk.R.DO cfg d.ctl := by
+/-- the dispatcher-level invariant of lexer mode, with the payload clauses -/
+def KD2 (cfg : Cfg) (d : Disp (FullSt cfg)) : Prop := Idle d ∧ J2 cfg d.ctl.1
+
+theorem KD2_new (cfg : Cfg) (enc : Nat) : KD2 cfg (Disp.new (fullCtl cfg) (FullSt.init cfg) enc) :=
+  ⟨⟨rfl, rfl⟩, J2_init cfg⟩
+
+theorem kd_DO {cfg : Cfg} {d : Disp (FullSt cfg)} (h : KD2 cfg d) : Chunk.R.DO cfg d.ctl := by
   refine ⟨?_, fun b _ => ?_⟩
   · show Chunk.R.NGF d.ctl.1
     unfold Chunk.R.NGF
-    rw [h.2.fault]
+    rw [h.2.1.fault]
     intro hh; cases hh
   · show d.ctl.1.fault ≠ some b
-    rw [h.2.fault]
+    rw [h.2.1.fault]
     intro hh; cases hh
 
 theorem fullCtl_lexE (cfg : Cfg) (hlex : LexCfg cfg) :
-    LexE.CtlLexE (genWorld cfg) (Chunk.R.cleanCtl (fullCtl cfg)) (KD cfg) Glue where
+    LexE.CtlLexE (genWorld cfg) (Chunk.R.cleanCtl (fullCtl cfg)) (KD2 cfg) Glue where
   ops := fun inp => by
     have hsim := Chunk.R.fullCtl_sim_prov cfg
     constructor
     · intro lx d hd
+      have hpost := handleTag_lexer_gen cfg (J2 cfg) _ _ (J2_evInv cfg) d hd.1 hd.2 inp lx
       rcases Chunk.R.handleTag_step hsim inp lx d (kd_DO hd) with ⟨he, _⟩ | ⟨e, ⟨hG, hc⟩, he⟩
       · refine Or.inl ⟨he, fun a ha => ?_⟩
-        have hpost := Full_handleTag_lexer cfg (Full_idsBounded cfg) d hd.1 hd.2 inp lx
         obtain ⟨hi', hJ'⟩ := hpost.1 a ha
         refine ⟨⟨hi', hJ'⟩, ?_⟩
-        exact LexE.handleTag_dir (fullCtl_stickySync cfg) d lx hd.1.1 hd.1.2 a ha (J_sticky cfg hlex _ hJ')
-      · exact Or.inr ⟨e, glue_of_allowed hG hc ((Full_handleTag_lexer cfg (Full_idsBounded cfg) d hd.1 hd.2 inp lx).2 e he), he⟩
+        exact LexE.handleTag_dir (fullCtl_stickySync cfg) d lx hd.1.1 hd.1.2 a ha (J_sticky cfg hlex _ hJ'.1)
+      · exact Or.inr ⟨e, glue_of_cg hG hc (hpost.2 e he), he⟩
     · intro lx d hd
+      have hpost := handleNonTag_lexer_gen cfg (J2 cfg) _ _ (J2_evInv cfg) d hd.1 hd.2 inp lx
       rcases Chunk.R.handleNonTag_step hsim inp lx d (kd_DO hd) with ⟨he, _⟩ | ⟨e, ⟨hG, hc⟩, he⟩
-      · refine Or.inl ⟨he, fun ha => ?_⟩
-        exact (Full_handleNonTag_lexer cfg d hd.1 hd.2 inp lx).1 () ha
-      · exact Or.inr ⟨e, glue_of_allowed hG hc ((Full_handleNonTag_lexer cfg d hd.1 hd.2 inp lx).2 e he), he⟩
+      · exact Or.inl ⟨he, fun ha => hpost.1 () ha⟩
+      · exact Or.inr ⟨e, glue_of_cg hG hc (hpost.2 e he), he⟩
   bail := rfl
   flush := fun d d' inp k hf hd => by
     obtain ⟨s1, s2, _⟩ := flushRemaining_same hf
@@ -218,7 +225,7 @@ theorem fullCtl_lexE (cfg : Cfg) (hlex : LexCfg cfg) :
     have hsim := Chunk.R.fullCtl_sim_prov cfg
     rcases hsim.handleEnd d.ctl (kd_DO hd) with ⟨he, _⟩ | ⟨e, ⟨hG, _⟩, he⟩
     · exact Or.inl he
-    · have := Full_handleEnd_lexer cfg d.ctl hd.2 e he
+    · have := Full_handleEnd_lexer cfg d.ctl hd.2.1 e he
       subst this
       rcases hG with ⟨m, hm, _⟩ | ⟨s, hs⟩
       · cases hm
@@ -228,10 +235,11 @@ theorem fullCtl_lexE (cfg : Cfg) (hlex : LexCfg cfg) :
 /-- **Full_no_panic_lexer_allowed.** Lexer-mode configurations (a document-level text / comment / doctype
 handler is registered), every settings record, input and chunking: every call of the whole rewriter model
 with the REAL controller returns ok, a handler / memory / ambiguity error, the documented panic of a call
-after an error — or a panic at one of the three residual glue sites (`Glue`: `rAttr`, `rPayload`,
-`rMatcher`). Parser, stream and dispatcher contribute nothing (also not the dispatcher's own slice checks,
-`DispOwn`): until a callback of the controller returns such an error, the run IS the run of the cleaned
-controller (`Full_clean_no_panic`). -/
+after an error — or a panic at one of the two residual glue sites (`Glue`: `rAttr`, `rMatcher`, the slices of
+the start-tag token's attributes). Parser, stream and dispatcher contribute nothing (also not the
+dispatcher's own slice checks, `DispOwn`), the selector VM and the handler vectors contribute nothing
+(`Full_idsBounded`, `J`), and the end-tag payload lookup cannot fail (`PayInv`): until a callback of the
+controller returns such an error, the run IS the run of the cleaned controller (`Full_clean_no_panic`). -/
 theorem Full_no_panic_lexer_allowed (cfg : Cfg) (hlex : LexCfg cfg) (settings : Settings) (chunks : List Bytes) :
     ∀ x ∈ (run (genWorld cfg) (Rewriter.new (genWorld cfg) (FullSt.init cfg) settings) chunks).2,
       Model.CallOK (fun _ => False) x ∨ ∃ e, Glue e ∧ x = .err e := by
@@ -240,7 +248,7 @@ theorem Full_no_panic_lexer_allowed (cfg : Cfg) (hlex : LexCfg cfg) (settings : 
     show (St.init cfg).flags.Sticky = true
     rw [flags_sticky]
     exact J_sticky cfg hlex _ (J_init cfg)
-  obtain ⟨hnew, hr⟩ := LexE.new_lexE hL (FullSt.init cfg) settings hst (KD_new cfg settings.encoding)
+  obtain ⟨hnew, hr⟩ := LexE.new_lexE hL (FullSt.init cfg) settings hst (KD2_new cfg settings.encoding)
   intro x hx
   rcases LexE.run_lexE hL C03.C03_emitsChecked_gen chunks _ hr x hx with k | k | ⟨e', ⟨e, hG, hee⟩, hxe⟩
   · left
@@ -252,6 +260,33 @@ theorem Full_no_panic_lexer_allowed (cfg : Cfg) (hlex : LexCfg cfg) (settings : 
     rcases hee with rfl | rfl
     · exact hxe
     · rw [hxe]
-      rcases hG with h | h | h <;> subst h <;> rfl
+      rcases hG with h | h <;> subst h <;> rfl
+
+/-! ## the headline, with the two remaining sites as named hypotheses -/
+
+/-- **named hypothesis**: in lexer-mode runs no call fails at `rAttr` — the raw range of every attribute of a
+start-tag lexeme lies inside the lexeme's raw range (a fact about the lexer's registers; package inv's token-part
+certificate has the ranges inside the INPUT, not inside the lexeme) -/
+def Full_rAttr_statement : Prop :=
+  ∀ (cfg : Cfg) (settings : Settings) (chunks : List Bytes), LexCfg cfg →
+    CallRes.err (.panic rAttr) ∉ (run (genWorld cfg) (Rewriter.new (genWorld cfg) (FullSt.init cfg) settings) chunks).2
+
+/-- **named hypothesis**: … and none at `rMatcher` — the name and value ranges of every attribute of a start-tag
+lexeme are slices of the input (`TagValid`, package inv, for sinks with `SinkSafe2`) -/
+def Full_rMatcher_statement : Prop :=
+  ∀ (cfg : Cfg) (settings : Settings) (chunks : List Bytes), LexCfg cfg →
+    CallRes.err (.panic rMatcher) ∉ (run (genWorld cfg) (Rewriter.new (genWorld cfg) (FullSt.init cfg) settings) chunks).2
+
+/-- **Full_no_panic_lexer_partial.** Given the two lexeme facts, in lexer-mode configurations NO call of the
+whole rewriter model returns a panic- or internal-class error (`Full_no_panic_lexer_statement`). -/
+theorem Full_no_panic_lexer_partial (h1 : Full_rAttr_statement) (h2 : Full_rMatcher_statement) :
+    Full_no_panic_lexer_statement := by
+  intro cfg settings chunks hlex x hx
+  rcases Full_no_panic_lexer_allowed cfg hlex settings chunks x hx with h | ⟨e, hG, he⟩
+  · exact h
+  · subst he
+    rcases hG with h | h <;> subst h
+    · exact absurd hx (h1 cfg settings chunks hlex)
+    · exact absurd hx (h2 cfg settings chunks hlex)
 
 end LolHtml.Thm.Full
